@@ -2,7 +2,8 @@
    Only statements, closed by `exact`, each followed by Print Assumptions. *)
 From Coq Require Import NArith List String Bool.
 From Rodbus Require Import Model.DbTypes Model.Database Spec.MapSpec Spec.AtomicSpec Model.Atomic.
-From Rodbus Require Proofs.DatabaseProofs Proofs.AtomicProofs.
+From Rodbus Require Import Gen.LockScope.
+From Rodbus Require Proofs.DatabaseProofs Proofs.AtomicProofs Proofs.LockScopeProofs.
 Import ListNotations.
 Local Open Scope N_scope.
 
@@ -111,6 +112,16 @@ Theorem C19_atomic_committed_are_txns : forall d0 jobs sched ws,
               nth_error jobs j = Some (Txn ws).
 Proof. exact AP.C19_atomic_committed_are_txns. Qed.
 Print Assumptions C19_atomic_committed_are_txns.
+
+(* The same statement for the step function selected by the lock scopes the translator reads off the
+   code (Gen/LockScope.v: a reply = one `handler.lock()` temporary spanning get_reply in task.rs; a
+   transaction = one guard spanning the callback in server_update_database; the wrapper takes no lock). *)
+Theorem C19_atomic_code : forall d0 jobs sched j t addrs,
+  let w := Rodbus.Proofs.LockScopeProofs.code_run (init d0 jobs) sched in
+  nth_error (threads w) j = Some t -> finished t = true -> tjob t = Req addrs ->
+  atomic_obs d0 (committed w) addrs (obs t).
+Proof. exact Rodbus.Proofs.LockScopeProofs.atomic_for_the_code. Qed.
+Print Assumptions C19_atomic_code.
 
 (* The theorem is about the lock scope: with per-point locking (each single point access atomic, the
    job as a whole not) the same statement is REFUTED by a concrete schedule (reader sees [7;1;1]). *)
